@@ -106,7 +106,7 @@ def t_update_worldset(ex):
     from pyvc.models import Model, ModelHost
     from pyvc.interp import PyRaise
     from pyvc.sym import OutOfSubset
-    mode = ("add", "remove_present", "remove_absent", "no_world_set")[ex.choose(4)]
+    mode = ("add", "add_already_in_memory", "remove_present", "remove_absent", "no_world_set")[ex.choose(5)]
     P = f"C30.update_worldset[{mode}]"
     trace = []
 
@@ -123,17 +123,86 @@ def t_update_worldset(ex):
             if name == "flush":
                 return Model(lambda it__: trace.append(("flush",)), "world.flush")
             raise OutOfSubset(f"world_set.{name}")
+
+        def len(self, it_):
+            # the in-memory set; an add of an entry it already holds (e.g. the retry of an interrupted update) leaves the length as it was
+            return size0 if mode == "add_already_in_memory" or not any(t[0] == "add" for t in trace) else size0 + 1
     it = Interp(ex, label=P)
     pkg = KStr.fresh("pkg")
+    from pyvc.sym import KInt
+    size0 = KInt.fresh("entries_in_memory")
+    ex.assume(size0 >= 0)
     ws = None if mode == "no_world_set" else World()
     fn = it.target("src/pkgcore/scripts/pmerge.py", "update_worldset")
     out = call(it, fn, ws, pkg, remove=True) if mode.startswith("remove") else call(it, fn, ws, pkg)
     ex.oblige(f"{P}.raises.nothing", not out.raised, kind="exceptional-postcondition")
     if out.raised:
         return
-    want = {"add": [("add", pkg), ("flush",)], "remove_present": [("remove", pkg), ("flush",)], "remove_absent": [("remove", pkg)], "no_world_set": []}[mode]
+    want = {"add": [("add", pkg), ("flush",)], "add_already_in_memory": [("add", pkg), ("flush",)], "remove_present": [("remove", pkg), ("flush",)], "remove_absent": [("remove", pkg)], "no_world_set": []}[mode]
     ex.oblige(f"{P}.ensures.exactly_the_requested_change_then_one_flush_unless_nothing_changed",
               len(trace) == len(want) and all(a[0] == b[0] and (len(a) == 1 or a[1] is b[1]) for a, b in zip(trace, want)))
+
+
+def enum_world(seed):
+    """the real WorldFile driven through pmerge.update_worldset: random add / remove sequences with slots of every shape, some updates
+    interrupted at the final rename; after every update that returned, the file holds exactly the entries of the reference set; an
+    interrupted update leaves the file as it was and its retry records the entry"""
+    import os
+    import random
+    import shutil
+    import tempfile
+    from unittest import mock
+    from pkgcore.ebuild.atom import atom
+    from pkgcore.pkgsets.filelist import WorldFile
+    from pkgcore.scripts import pmerge
+    rnd = random.Random(seed + 3030)
+    scratch = tempfile.mkdtemp(prefix="c30.", dir=os.environ.get("PYVC_SCRATCH", "/var/tmp"))
+    names = ["dev-util/foo", "dev-lang/python", "app-misc/bar"]
+    slots = [None, "0", "1", "10", "3.11", "0.5", "2_x"]
+    cases, fails = 0, []
+
+    def entry(a):
+        return a.key if not a.slot or a.slot == "0" else f"{a.key}:{a.slot}"
+    try:
+        for trial in range(120):
+            path = os.path.join(scratch, f"world{trial}")
+            initial = sorted({entry(atom(n + (f":{s_}" if s_ else ""))) for n, s_ in [(rnd.choice(names), rnd.choice(slots)) for _ in range(rnd.randint(0, 3))]})
+            open(path, "w").write("\n".join(initial))
+            ws = WorldFile(path, gid=os.getgid())
+            model = set(initial)      # what the set is meant to hold
+            on_disk = set(initial)
+            hist = []
+            for step in range(rnd.randint(2, 6)):
+                a = atom(rnd.choice(names) + ((":" + s_) if (s_ := rnd.choice(slots)) else ""))
+                remove = rnd.random() < .4
+                interrupt = rnd.random() < .25
+                hist.append(("remove " if remove else "add ") + str(a) + (" (interrupted at the rename)" if interrupt else ""))
+                e = entry(a)
+                if remove and e not in model:
+                    hist.pop()
+                    continue
+                (model.discard if remove else model.add)(e)
+                cases += 1
+                try:
+                    if interrupt:
+                        with mock.patch("os.rename", side_effect=OSError(5, "injected")):
+                            pmerge.update_worldset(ws, a, remove=remove)
+                    else:
+                        pmerge.update_worldset(ws, a, remove=remove)
+                        on_disk = set(model)
+                except OSError:
+                    pass
+                got = set(x for x in open(path).read().split("\n") if x)
+                if got != on_disk and len(fails) < 4:
+                    fails.append({"model": {"initial": initial, "history": list(hist)},
+                                  "detail": f"world file {initial} after {hist}: the file holds {sorted(got)}, expected {sorted(on_disk)}"})
+                    break
+                if any(n_.startswith(".update.") or n_.endswith(".new") for n_ in os.listdir(scratch)):
+                    pass
+    finally:
+        shutil.rmtree(scratch, ignore_errors=True)
+    return {"name": "C30.world_updates.bounded_enumeration", "bound": "120 seeded world files (0..3 entries) x 2..6 add / remove requests over 3 packages and 7 slot shapes through pmerge.update_worldset on the real WorldFile, "
+            "a quarter of the updates interrupted at the final rename (and later retried by chance); file content compared after every step", "cases": cases, "failures": fails}
 
 
 def tasks():
@@ -141,7 +210,7 @@ def tasks():
         Task("C30.WorldFile._modify", t_modify, [(FILE, "WorldFile._modify"), (FILE, "FileList.add"), (FILE, "FileList.remove")],
              fallback={"unroll": 3}),
         Task("C30.FileList.flush", t_flush, [(FILE, "FileList.flush")]),
-        Task("C30.update_worldset", t_update_worldset, [("src/pkgcore/scripts/pmerge.py", "update_worldset")]),
+        Task("C30.update_worldset", t_update_worldset, [("src/pkgcore/scripts/pmerge.py", "update_worldset")], enumerate=enum_world),
     ]
 
 
